@@ -465,6 +465,136 @@ Fixpoint iset (ks : list bytes) (x : item) (it : item) : option item :=
   end.
 
 (* ------------------------------------------------------------------------------------ *)
+(** * sort_values_by *)
+
+(* IndexMap::sort_by(cmp) = `entries.sort_by(..)`, a stable sort; `le x y` = "cmp(x, y) is not Greater" *)
+Section KvSortBy.
+  Variable le : key * item -> key * item -> bool.
+  Fixpoint kv_ins_by (x : key * item) (m : kvs) : kvs :=
+    match m with
+    | [] => [x]
+    | y :: tl => if le x y then x :: y :: tl else y :: kv_ins_by x tl
+    end.
+  Fixpoint kv_sort_by (m : kvs) : kvs :=
+    match m with
+    | [] => []
+    | x :: tl => kv_ins_by x (kv_sort_by tl)
+    end.
+End KvSortBy.
+
+(* the caller's closures (harness/src/bin/c08.rs, the vocabulary of c16.rs):
+     kdesc  |k1, _, k2, _| k2.get().cmp(k1.get())
+     rank   |_, a, _, b| rank_item(a).cmp(&rank_item(b)),  rank_item: Item::None => (0, 0),
+            Item::Value(Value::Integer(f)) => (2, *f.value()), _ => (1, 0);   rank_value likewise on values *)
+Definition item_rank (i : item) : nat * Z :=
+  match i with
+  | INone => (0, 0%Z)
+  | IValue (VScalar (SInt z) _ _) => (2, z)
+  | _ => (1, 0%Z)
+  end.
+Definition value_rank (v : value) : nat * Z :=
+  match v with
+  | VScalar (SInt z) _ _ => (2, z)
+  | _ => (1, 0%Z)
+  end.
+(* table.rs sort_values_by_internal: `modified_cmp = |key1, val1, key2, val2| compare(key1, val1, key2, val2)` *)
+Definition tcmp_le (c : scmp) (x y : key * item) : bool :=
+  match c with
+  | CKeyDesc => key_leb (k_key (fst y)) (k_key (fst x))
+  | CRank => rank_le (item_rank (snd x)) (item_rank (snd y))
+  end.
+(* inline_table.rs sort_values_by_internal: `match (val1.as_value(), val2.as_value()) { (Some(v1), Some(v2)) =>
+   compare(key1, v1, key2, v2), (Some(_), None) => Greater, (None, Some(_)) => Less, (None, None) => Equal }` *)
+Definition icmp_le (c : scmp) (x y : key * item) : bool :=
+  match snd x, snd y with
+  | IValue v1, IValue v2 =>
+    match c with
+    | CKeyDesc => key_leb (k_key (fst y)) (k_key (fst x))
+    | CRank => rank_le (value_rank v1) (value_rank v2)
+    end
+  | IValue _, _ => false
+  | _, _ => true
+  end.
+
+(* `self.items.sort_by(modified_cmp); for value in self.items.values_mut() { Item::Table(table) if
+   table.is_dotted() => table.sort_values_by_internal(compare) }` — the caller's comparator goes down into the
+   dotted tables; the inline variant likewise with `Item::Value(Value::InlineTable(table)) if table.is_dotted()`.
+   (As for sort_values the recursive calls are written before the sort: they change the inside of the child tables
+   only, and the comparators look at the key and at the outermost constructor / integer of the item.) *)
+Fixpoint tbl_sort_by (c : scmp) (t : tbl) : tbl :=
+  match t with
+  | Tbl items d im dt pos sp =>
+    Tbl (kv_sort_by (tcmp_le c)
+           (map (fun kv => match kv with
+                           | (k, i) =>
+                             (k, match i with
+                                 | ITable (Tbl _ _ _ true _ _ as sub) => ITable (tbl_sort_by c sub)
+                                 | _ => i
+                                 end)
+                           end) items)) d im dt pos sp
+  end.
+Fixpoint inline_sort_by (c : scmp) (v : value) : value :=
+  match v with
+  | VInline items pre im dt d sp =>
+    VInline (kv_sort_by (icmp_le c)
+               (map (fun kv => match kv with
+                               | (k, i) =>
+                                 (k, match i with
+                                     | IValue (VInline _ _ _ true _ _ as sub) => IValue (inline_sort_by c sub)
+                                     | _ => i
+                                     end)
+                               end) items)) pre im dt d sp
+  | _ => v
+  end.
+
+(* The representation invariant of IndexMap: the keys of a map are distinct, so the comparator is never shown two
+   entries with the same key.  `kvs` is a plain association list; sort_values_by is modelled on lists that ARE
+   maps — in the sorted table and in the dotted tables the sort goes down into — and is undefined on the others
+   (no reachable state: every constructor of the API keeps keys distinct).  Only the verbatim theorems use this
+   (an entry is looked up by its key: with two entries of one key a by-value comparator could swap them). *)
+Fixpoint keys_distinct (ks : list bytes) : bool :=
+  match ks with
+  | [] => true
+  | k :: tl => negb (existsb (bytes_eqb k) tl) && keys_distinct tl
+  end.
+Fixpoint tbl_is_map (t : tbl) : bool :=
+  match t with
+  | Tbl items _ _ _ _ _ =>
+    keys_distinct (map (fun kv : key * item => k_key (fst kv)) items)
+    && (fix go (l : kvs) : bool :=
+          match l with
+          | [] => true
+          | (_, i) :: tl =>
+            match i with
+            | ITable (Tbl _ _ _ true _ _ as sub) => tbl_is_map sub
+            | _ => true
+            end && go tl
+          end) items
+  end.
+Fixpoint inline_is_map (v : value) : bool :=
+  match v with
+  | VInline items _ _ _ _ _ =>
+    keys_distinct (map (fun kv : key * item => k_key (fst kv)) items)
+    && (fix go (l : kvs) : bool :=
+          match l with
+          | [] => true
+          | (_, i) :: tl =>
+            match i with
+            | IValue (VInline _ _ _ true _ _ as sub) => inline_is_map sub
+            | _ => true
+            end && go tl
+          end) items
+  | _ => true
+  end.
+
+Definition op_sort_by (c : scmp) (it : item) : option item :=
+  match it with
+  | ITable t => if tbl_is_map t then Some (ITable (tbl_sort_by c t)) else None
+  | IValue (VInline _ _ _ _ _ _ as v) => if inline_is_map v then Some (IValue (inline_sort_by c v)) else None
+  | _ => None
+  end.
+
+(* ------------------------------------------------------------------------------------ *)
 (** * One operation on a document *)
 
 Definition op_fun (o : op) : path * (item -> option item) :=
@@ -486,6 +616,7 @@ Definition op_fun (o : op) : path * (item -> option item) :=
   | OIntoAot p k => (p, op_slot k (fun i => Some (into_aot_slot i)))
   | OISet ks x =>
     ([], fun it => match ks with [] => None | _ => iset ks (build_item x) it end)
+  | OSortBy p c => (p, op_sort_by c)
   end.
 
 Definition apply (o : op) (root : tbl) : option tbl :=
